@@ -28,6 +28,35 @@ impl Filter for VDumpFilter {
     }
 }
 
+/// bounded printed form used by probes: short texts verbatim, long ones as `#<chars>:<hash>`
+/// (keeps outputs small when captured text is captured again and again)
+pub fn digest_text(s: &str) -> String {
+    let n = s.chars().count();
+    if n <= 40 {
+        s.to_string()
+    } else {
+        format!("#{n}:{:x}", crate::rng::hash_str(s))
+    }
+}
+
+#[derive(Clone, ParseFilter, FilterReflection)]
+#[filter(
+    name = "digest",
+    description = "harness monitor: bounded printed form",
+    parsed(DigestFilter)
+)]
+pub struct Digest;
+
+#[derive(Debug, Default, Display_filter)]
+#[name = "digest"]
+struct DigestFilter;
+
+impl Filter for DigestFilter {
+    fn evaluate(&self, input: &dyn ValueView, _runtime: &dyn Runtime) -> Result<Value> {
+        Ok(Value::scalar(digest_text(&input.render().to_string())))
+    }
+}
+
 #[derive(Copy, Clone, Debug, Default)]
 pub struct EnvDumpTag;
 
@@ -60,11 +89,12 @@ struct EnvDump {
 
 /// the text envdump prints for one name, given the four observations
 pub fn envdump_entry(name: &str, try_get: Option<&str>, get: Option<&str>, in_roots: bool, idx: Option<&str>) -> String {
+    let (try_get, get) = (try_get.map(digest_text), get.map(digest_text));
     format!(
         "{}={},{},{},{};",
         name,
-        try_get.unwrap_or("~"),
-        get.unwrap_or("!"),
+        try_get.as_deref().unwrap_or("~"),
+        get.as_deref().unwrap_or("!"),
         if in_roots { "R" } else { "r" },
         idx.unwrap_or("~")
     )
